@@ -51,6 +51,13 @@ def gate_from_braket(braket_gate: BraketInstruction) -> QuantumGate:
     gate_name = braket_gate.operator.name
     qubits = list(map(int, braket_gate.target.item_list))
 
+    # Gate modifiers change the action of the instruction and have no
+    # counterpart here: reject them instead of silently dropping them.
+    if len(getattr(braket_gate, "control", ())) > 0:
+        raise ValueError(f"{gate_name} with control modifier is not supported.")
+    if getattr(braket_gate, "power", 1) != 1:
+        raise ValueError(f"{gate_name} with power modifier is not supported.")
+
     if gate_name in _single_qubit_gate_braket_quri_parts:
         assert len(qubits) == 1, f"{gate_name} is supposed to have 1 target index."
         return _single_qubit_gate_braket_quri_parts[gate_name](qubits[0])
